@@ -24,24 +24,24 @@ COMPONENTS = {
 
 
 EXPECTED_REACH = {
-    "C05": ["c05:inits_seen", "c05:ctor_forms_checked", "c05:ctor_reject_ok", "c05:grouped_checked", "c05:mono_checked_cached",
+    "C05": ["cfg:big_run", "c05:inits_seen", "c05:ctor_forms_checked", "c05:ctor_reject_ok", "c05:grouped_checked", "c05:mono_checked_cached",
             "c05:twin_compared:binop_array", "c05:twin_compared:align", "c05:twin_compared:reshape", "op:relabel:ok", "op:rename:ok",
             "op:ds_inplace:ok", "op:values_set:ok"],
-    "C15": ["c15:checked_pure", "c15:checked_inplace_outsiders", "c15:meta_mutated_inplace", "op:copy:ok", "op:align:ok", "op:reshape:ok",
+    "C15": ["cfg:big_run", "c15:checked_pure", "c15:checked_inplace_outsiders", "c15:meta_mutated_inplace", "op:copy:ok", "op:align:ok", "op:reshape:ok",
             "op:ds_pure:ok", "op:dsop:ok", "op:ds_write:ok", "op:arr_write:ok"],
-    "C16": ["c16:route_get_member_shadowed", "c16:route_get_under_shadowed", "c16:route_get_dim_shadowed", "c16:route_del_member_shadowed",
+    "C16": ["cfg:big_run", "c16:route_get_member_shadowed", "c16:route_get_under_shadowed", "c16:route_get_dim_shadowed", "c16:route_del_member_shadowed",
             "c16:route_set_dim", "c16:route_del_public", "c16:route_attrs_assign_public", "c16:prop_keep_checked_nonempty",
             "c16:prop_drop_checked_nonempty", "c16:axis_keep_checked"],
-    "C13": ["fault:rejected_assignment", "c13:enum_positions_all_templates", "c13:enum_positions_sampled_templates", "c13:ctor_outer_join",
+    "C13": ["cfg:big_run", "fault:rejected_assignment", "c13:enum_positions_all_templates", "c13:enum_positions_sampled_templates", "c13:ctor_outer_join",
             "c13:axes_setitem_pos_users2", "c13:axes_setitem_name_users2", "c13:rename_var_dims", "c13:relabel_var_labels", "c13:rename_bulk_permutation",
             "c13:axes_assign", "c13:fork_copy", "c13:reject_k3_j2_newdim_before"],
-    "C14": ["c14:compared_take_some_lack_dim", "c14:compared_reduce_some_lack_dim", "c14:compared_reindex_axis_some_lack_dim",
+    "C14": ["cfg:big_run", "c14:compared_take_some_lack_dim", "c14:compared_reduce_some_lack_dim", "c14:compared_reindex_axis_some_lack_dim",
             "c14:compared_interp_axis", "c14:compared_sort_axis", "c14:compared_take_axis", "c14:compared_ds_op_ds", "c14:compared_stack_ds",
             "c14:compared_concatenate_ds", "c14:adopted_result", "c13:cache_query"],
-    "C19": ["c19:ds_write_w", "c19:ds_write_a", "c19:arr_write_a_append", "c19:arr_write_a+_append", "c19:arr_write_w-_create", "c19:handle_set",
+    "C19": ["cfg:big_run", "c19:ds_write_w", "c19:ds_write_a", "c19:arr_write_a_append", "c19:arr_write_a+_append", "c19:arr_write_w-_create", "c19:handle_set",
             "c19:handle_meta_axis", "c19:json_roundtrip", "c19:read_names", "c19:leaked_handles_finalized", "fault:rejected_file_operation_size_mismatch",
             "fault:storage_error@createVariable", "fault:crash@var[...] = write", "fault:sweep_steps", "fault:recovery_verified", "fault:kept_variable_verified"],
-    "C20": ["c20:index_getitem_label", "c20:index_ix_position", "c20:index_nloc_label", "c20:index_read_nc_position", "c20:index_ds_read_label",
+    "C20": ["cfg:big_run", "c20:index_getitem_label", "c20:index_ix_position", "c20:index_nloc_label", "c20:index_read_nc_position", "c20:index_ds_read_label",
             "c20:assign_label_dimarray", "c20:assign_position_ndarray", "c20:assign_seen_through_second_handle", "c20:unlimited_created",
             "c20:unlimited_extend_slice", "c20:unlimited_extend_inside", "c20:multi_stack_align", "c20:multi_concat", "fault:sweep_steps"],
 }
